@@ -86,6 +86,12 @@ CLAIMED = {
         note="Sessions of <= 3 requests + final save over per-program alphabets; in-process server (stdin/stdout substituted); menu/comment ids opaque (compared between observed client and fresh server only); error entries compared as present/absent. Open finding: a vanished range of a still visible option is never withdrawn.",
         design_ref="DESIGN.md section 3, C14",
     ),
+    "C15": dict(
+        technique="TLA+ normative model of request sanitising (spec/KServer.tla Sanitize / MustReport over abstract JSON kinds) on top of the server model; a decision table of every protocol key x JSON kind (plus value kinds x option types, reset element kinds, file errors, malformed / non-object lines) embedded in sessions run against the real run_server(); TLC (spec/MC_Server15.tla) compares the configuration saved at the end with the fold of the sanitised requests and evaluates OneReply, StdoutPure, Alive, ErrorsListed on the observations",
+        text="Model checking of a decision table: each row is a session [valid request, row, valid request, save]; TLC folds the specification's handler over the sanitised lines and requires the saved configuration to equal the specification's (the bad part is as if not sent), exactly one JSON object line per input line, no exception escaping the server, and an error entry where the specification requires one.",
+        note="In-process server; 150+ rows, some doubled / combined pairwise in the thorough tier; numbers sent to string options and error wording are left open; stdout purity is judged on the substituted stdout stream.",
+        design_ref="DESIGN.md section 3, C15",
+    ),
 }
 
 REASON_PENDING = "check not built yet in this session (planned in DESIGN.md section 3); not claimed until its TLA+ model and conformance harness exist"
